@@ -226,15 +226,15 @@ def decl_models(prog, dw_holder):
         s, name, recurse = a
         m = it.user['scopes']
         while True:
-            dd = m.get((id(s.obj), 'x'))
+            dd = m.get((s.obj.id, 'x'))
             par = it.load(s.obj, s.path + ('parent',))
             if dd is not None or par is None or not recurse:
                 return dd
             s = par
     def scopeput(it, a, e):
         s, dd = a
-        it.user['scopes'][(id(s.obj), 'x')] = dd
-        it.event('bind', id(s.obj), dd)
+        it.user['scopes'][(s.obj.id, 'x')] = dd
+        it.event('bind', s.obj.id, dd)
         return None
     def parseinit(it, a, e): return Ptr(Obj('init', 'heap'), ())
     def emitdata(it, a, e):
@@ -308,7 +308,7 @@ def run_history(prog, models, hist, decl_fn, flush_fn):
             except Terminal as t:
                 res = 'diag:' + str(t.detail)
             evs = it.events[n0:]
-            bound = it.user['scopes'].get((id(s.obj), 'x'))
+            bound = it.user['scopes'].get((s.obj.id, 'x'))
             steps.append((res, [e for e in evs if e[0] in ('emitdata', 'emitfunc', 'funcinit')], snapshot(it, bound) if bound is not None and res == 'ok' else None))
             if res != 'ok':
                 return steps, None, implkey(it, dw)
@@ -323,7 +323,7 @@ def run_history(prog, models, hist, decl_fn, flush_fn):
 
 
 def implkey(it, dw):
-    dd = it.user['scopes'].get((id(dw.filescope.obj), 'x'))
+    dd = it.user['scopes'].get((dw.filescope.obj.id, 'x'))
     if dd is None:
         return None
     f = dd.obj.f
